@@ -5,9 +5,10 @@ import "context"
 // C01 — an acknowledged produce is durable in S3 (concurrent producers, any upload failure,
 // and after a restart).
 func VsymC01_Durable() {
-	// shapes: {producers, upload failures, preemption bound (0 = unbounded)}
-	shape := [][3]int{{2, 1, 2}, {3, 0, 1}, {3, 0, 2}, {2, 2, 3}, {2, 1, 0}, {3, 1, 1}}[vsym_Param("shape")]
+	// shapes: {producers, upload failures, preemption bound (0 = unbounded), 1 = preempt at S3 calls and blocking only}
+	shape := [][4]int{{2, 1, 2, 0}, {3, 0, 1, 1}, {2, 2, 3, 0}, {2, 1, 0, 0}, {3, 1, 1, 1}, {3, 0, 2, 1}}[vsym_Param("shape")]
 	w := vsymNewConcWorld(true)
+	w.s3EventsOnly = shape[3] == 1
 	w.s3.budget = shape[1]
 	vsym_PreemptionBound(shape[2])
 	vsym_ExploreEvents() // preemption at S3 calls, publish callbacks and producer steps, and when blocked
